@@ -16,8 +16,57 @@ def same(a, b):
     return all(np.array_equal(a[k], b[k]) for k in a)
 
 
+def trajectory_continuity(res, rng, tier):
+    import mudslide, queue
+    from mudslide.models import scattering_models as M
+    from mudslide.batch import BatchedTraj, TrajGenConst
+    from mudslide.tracer import TraceManager
+    from mudslide.even_sampling import EvenSamplingTrajectory
+    bad = []
+    CL = dict(fssh=mudslide.TrajectorySH, cumulative=mudslide.TrajectoryCum, ehrenfest=mudslide.Ehrenfest, afssh=mudslide.AugmentedFSSH, es=EvenSamplingTrajectory)
+    SET = [("simple", -3.0, (8.0, 14.0), 4.0), ("super", -5.0, (6.0, 12.0), 6.0), ("dual", -4.0, (12.0, 25.0), 5.0), ("modelx", -8.0, (9.0, 14.0), 10.0), ("models", -8.0, (9.0, 14.0), 10.0)]
+    for it in range(10 if tier == "quick" else 100):
+        cls = ["es", "fssh", "afssh", "cumulative", "ehrenfest"][it % 5]
+        mname, x0, (plo, phi), bound = SET[(it // 5 + it) % len(SET)]
+        if cls == "afssh" and M[mname]().nstates() != 2: mname, x0, (plo, phi), bound = SET[0]
+        model = M[mname](); k = rng.uniform(plo, phi)
+        kept = []                                    # (electronics object, deep snapshot) for everything the model returned during the run
+        orig_update = type(model).update
+        def upd(self_, X, electronics=None, couplings=None, gradients=None, _o=orig_update):
+            out = _o(self_, X, electronics=electronics, couplings=couplings, gradients=gradients)
+            kept.append((out, snap(out)))
+            return out
+        type(model).update = upd
+        try:
+            kw = dict(samples=1, dt=rng.choice([5.0, 10.0]), bounds=[-bound, bound], max_steps=400, tracemanager=TraceManager())
+            if cls == "es": kw.update(spawn_stack=rng.choice([[2], [3, 2], [2, 2]]), quadrature="gl")
+            if cls in ("fssh", "afssh"): kw["zeta_list"] = [rng.choice([2.0, rng.random() * 0.1]) for _ in range(500)]
+            r = BatchedTraj(model, TrajGenConst([x0], [k], 0, seed=rng.randrange(2 ** 31)), CL[cls], **kw).compute()
+        finally:
+            type(model).update = orig_update
+        info = dict(cls=cls, model=mname, x0=x0, k=k, traces=len(r.traces))
+        res.count("trajectory-continuity/" + cls); res.count("trajectory-continuity-traces", len(r.traces)); res.case(("trajcont", cls, mname, k), True, info)
+        def diffkeys(a, b): return [k_ for k_ in a if k_ != "X" and not np.array_equal(a[k_], b[k_])]     # the position array handed in belongs to the caller
+        stale = [(i, diffkeys(snap(obj), cp_)) for i, (obj, cp_) in enumerate(kept) if diffkeys(snap(obj), cp_)]
+        if stale:
+            bad.append(dict(failed="computing a new point never changes the energies, forces or couplings already returned for an earlier point (a %s run modified %d of the %d electronics objects it had received; first: fields %r)" % (cls, len(stale), len(kept), stale[0][1]), case=info)); continue
+        for ti, t in enumerate(r.traces):
+            refs = [np.asarray(s_["electronics"]["reference"]) for s_ in t if "reference" in s_["electronics"]]
+            tms = [float(s_["time"]) for s_ in t]
+            for j in range(1, len(refs)):
+                ov = np.einsum("pi,pi->i", refs[j], refs[j - 1])
+                if np.any(ov < 0):
+                    bad.append(dict(failed="along a trajectory each new set of adiabatic states has non-negative overlap with the set it was continued from (%s, trace %d of %d, between t=%g and t=%g: overlaps %r)"
+                                           % (cls, ti, len(r.traces), tms[j - 1], tms[j], ov.tolist()), case=info)); break
+            else:
+                continue
+            break
+    return bad
+
+
 def run(tier, seed):
     import sys, mudslide.models
+    import mudslide
     S = sys.modules['mudslide.models.scattering_models']
     res = Result("C06", tier, seed)
     rng = random.Random(seed)
@@ -80,6 +129,30 @@ def run(tier, seed):
                     gmeta.append(dict(info, step=k))
             res.count("model/" + name); res.count("path/" + kind)
             res.case(("path", name, kind, it), True, dict(info, length=L))
+    # ---- models that carry a reference of their own (constructor option reference=, or compute() called on the model itself):
+    #      along a path the states must still be continued from the previous point, not from that fixed reference
+    for name, lo, hi in [("modelx", -9.0, 11.0), ("models", -9.0, 11.0), ("super", -6.0, 6.0), ("dual", -5.0, 5.0)]:
+        for how in ("constructor", "compute-on-model"):
+            M0 = mudslide.models.scattering_models[name]
+            C0 = np.linalg.eigh(M0().V(np.array([lo])))[1]
+            if how == "constructor":
+                m = M0(reference=C0 * np.array([rng.choice([-1.0, 1.0]) for _ in range(C0.shape[1])]))
+            else:
+                m = M0(); m.compute(np.array([lo]))          # leaves the model object itself holding a reference
+            prev = None; xs = np.arange(lo, hi, 0.2 if tier == "quick" else 0.05)
+            info = dict(model=name, reference_from=how, path="sweep %g..%g" % (lo, hi))
+            worst = 1.0
+            for xv in xs:
+                el = m.update(np.array([xv]), electronics=prev)
+                if prev is not None:
+                    ov = np.einsum("pi,pi->i", el._reference, prev._reference); worst = min(worst, float(np.min(ov)))
+                    if np.any(ov < 0):
+                        bad.append(dict(failed="each new set of adiabatic states has non-negative overlap, state by state, with the set it was continued from (model carrying its own reference: overlaps %r at x=%g)" % (ov.tolist(), xv), case=info)); break
+                prev = el
+            res.count("own-reference/" + how); res.case(("ownref", name, how), True, dict(info, min_overlap=worst))
+    # ---- trajectory level: in every trace of every class (children of even-sampling trees inherit the parent's history) consecutive
+    #      snapshots carry states with non-negative overlap, and what a step returned is not modified by later steps
+    bad += trajectory_continuity(res, rng, tier)
     f2, e2 = run_case_check("C06g", PRELUDE, "case05g", "chk05g", gc, per_file=12, timeout=1500)
     for e in e2:
         res.violation("model evaluation failed (coqc)", dict(kind="coqc-error", log=e, no_failing_input_found=True))
@@ -93,5 +166,5 @@ def run(tier, seed):
     return finish(res, thm,
                   rule="for each of the 11 built-in models: smooth paths, paths of large random jumps and paths that revisit positions; two interleaved computation chains sharing one model object; after every call all earlier results are "
                        "re-compared with their deep copies, overlaps with the continued-from states are checked, and the tracked result is compared with a history-free recomputation (energies, forces, |couplings|, sign-product relation); "
-                       "sampled steps replayed through signfix + the generic layer; non-trivial = distinct path",
+                       "sampled steps replayed through signfix + the generic layer; models carrying their own reference swept across positions where a state has rotated by more than 90 degrees; real runs of 5 trajectory classes (even-sampling trees included): overlaps between consecutive snapshots of every trace, and every electronics object the run received re-compared with its deep copy afterwards; non-trivial = distinct path",
                   assumptions=["np.linalg.eigh is a function of its argument (deterministic LAPACK)", "positions with a gap below 1e-7 are skipped for the history-independence comparison"])
